@@ -365,7 +365,8 @@ def setup_repo_import() -> None:
 # ---------------------------------------------------------------- trace validation
 
 
-def judge_traces(module: str, traces: list, *, batch: int = 2000, modes=("run", "judge"), workers: int = 8):
+def judge_traces(module: str, traces: list, *, batch: int = 2000, modes=("run", "judge"), workers: int = 8,
+                 cfg_text: str | None = None):
     """Validate recorded traces with a Trace*.tla module, many per JVM start.
 
     The module reads the JSON list from IOEnv.TRACE_FILE, explores every (trace, mode) and
@@ -381,11 +382,19 @@ def judge_traces(module: str, traces: list, *, batch: int = 2000, modes=("run", 
         part = traces[s : s + batch]
         tf = WORK / f"trace-{module}-{os.getpid()}-{s}.json"
         tf.write_text(json.dumps(part))
+        cfgname = f"{module}.cfg"
+        cf = None
+        if cfg_text is not None:
+            cf = WORK / f"cfg-{module}-{os.getpid()}-{s}.cfg"
+            cf.write_text(cfg_text)
+            cfgname = str(cf)
         try:
-            r = tlc(module, f"{module}.cfg", workers=workers, env={"TRACE_FILE": str(tf)},
+            r = tlc(module, cfgname, workers=workers, env={"TRACE_FILE": str(tf)},
                     coverage=False, tag=f"{module}-{s}")
         finally:
             tf.unlink(missing_ok=True)
+            if cf is not None:
+                cf.unlink(missing_ok=True)
         if r.violated or not r.ok:
             raise MachineryError(f"{module} failed: {r.stdout[-2500:]}")
         states += r.generated
